@@ -574,7 +574,12 @@ impl TableStore {
         }
         let merged_table = self.save_table(merged_table)?;
         for table in &tables[1..] {
-            self.remove_head(table);
+            // The merged table may be identical to one of the old heads (e.g.
+            // a head that is a descendant of all the others). Its head file
+            // was just (re)written and must not be removed.
+            if table.name != merged_table.name {
+                self.remove_head(table);
+            }
         }
         Ok((merged_table, lock))
     }
